@@ -1255,7 +1255,7 @@ where
             final(self).inv_struct(), //@ [C08,C11,C12]
             final(self).inv_ts(), //@ [C05,C06]
             final(self).inv_count(), //@ [C10]
-            final(self).inv_weight(), //@ [C10,C03,C04]
+            final(self).inv_weight(), //@ [C10,C03,C04,C12]
             Self::rel_purge(*old(self), *final(self)), //@ [C15,C14,C12,C01]
     {
         let ghost p0 = self.deques.probation@; //@
@@ -1440,7 +1440,7 @@ where
             final(self).inv_struct(), //@ [C08,C11,C12]
             final(self).inv_ts(), //@ [C05,C06]
             final(self).inv_count(), //@ [C10]
-            final(self).inv_weight(), //@ [C10,C03,C04]
+            final(self).inv_weight(), //@ [C10,C03,C04,C12]
             final(self).frequency_sketch == old(self).frequency_sketch, final(self).frequency_sketch_enabled == old(self).frequency_sketch_enabled, //@ [C14,C15]
             forall|k: KeyId| #[trigger] final(self).cache@.contains_key(k) ==> old(self).cache@.contains_key(k) && final(self).cache@[k] == old(self).cache@[k], //@ [C01,C03,C15]
             final(self).weigher == old(self).weigher, final(self).expiration_clock == old(self).expiration_clock, //@
@@ -1622,7 +1622,7 @@ where
             final(self).inv_struct(), //@ [C08,C11,C12]
             final(self).inv_ts(), //@ [C05,C06]
             final(self).inv_count(), //@ [C10]
-            final(self).inv_weight(), //@ [C10,C03,C04]
+            final(self).inv_weight(), //@ [C10,C03,C04,C12]
             // C15/C14: never feeds the estimator
             final(self).frequency_sketch == old(self).frequency_sketch, //@ [C14,C15]
             // C01/C15/C06: only the housekeeping prefix may have removed entries; survivors identical (value, timestamps, weight)
@@ -1661,7 +1661,7 @@ where
             final(self).inv_struct(), //@ [C08,C11,C12]
             final(self).inv_ts(), //@ [C05,C06]
             final(self).inv_count(), //@ [C10]
-            final(self).inv_weight(), //@ [C10,C03,C04]
+            final(self).inv_weight(), //@ [C10,C03,C04,C12]
             // C14: exactly one recording, hit or miss
             final(self).frequency_sketch == old(self).frequency_sketch.incremented(old(self).sp_hash(key)), //@ [C14]
             // C01: a hit returns the resident value of that key, unchanged
@@ -1672,7 +1672,7 @@ where
             }, //@
             // the complete effect: the housekeeping prefix, then the lookup: hit iff resident and not expired at this
             // operation's clock reading; a hit refreshes the idle timer and makes the key most recently used, a miss changes nothing
-            exists|mid: Self| #[trigger] Self::rel_hk(*old(self), mid) //@ [C14]
+            exists|mid: Self| #[trigger] Self::rel_hk(*old(self), mid) //@ [C14,C04,C15]
                 && Self::rel_get(mid, *final(self), kid(key), old(self).sp_ts(), old(self).sp_hash(key), r.is_some()), //@
             // the same, clause by clause (for attribution of a failure to the property it breaks)
             exists|mid: Self| #[trigger] Self::rel_hk(*old(self), mid) && Self::rel_get_answer(mid, kid(key), old(self).sp_ts(), r.is_some()), //@ [C01,C03,C05,C06,C07]
@@ -1744,7 +1744,7 @@ where
             final(self).inv_struct(), //@ [C08,C11,C12]
             final(self).inv_ts(), //@ [C05,C06]
             final(self).inv_count(), //@ [C10]
-            final(self).inv_weight(), //@ [C10,C03,C04]
+            final(self).inv_weight(), //@ [C10,C03,C04,C12]
             final(self).frequency_sketch == old(self).frequency_sketch, //@ [C14]
             // C07: gone ...
             !final(self).cache@.contains_key(kid(key)), //@ [C07,C01]
@@ -1752,8 +1752,8 @@ where
             forall|k: KeyId| #[trigger] final(self).cache@.contains_key(k) ==> old(self).cache@.contains_key(k) && final(self).cache@[k] == old(self).cache@[k], //@ [C07,C01]
             final(self).weigher == old(self).weigher, final(self).frequency_sketch_enabled == old(self).frequency_sketch_enabled, //@
             // C07, precise: exactly the entry of this key is taken out of what housekeeping left; the recency order of the others is untouched
-            exists|mid: Self| #[trigger] Self::rel_hk(*old(self), mid) && final(self).cache@ =~= mid.cache@.remove(kid(key)), //@ [C07,C01,C03]
-            exists|mid: Self| #[trigger] Self::rel_hk(*old(self), mid) //@ [C12,C07]
+            exists|mid: Self| #[trigger] Self::rel_hk(*old(self), mid) && final(self).cache@ =~= mid.cache@.remove(kid(key)), //@ [C07,C01,C03,C04,C15]
+            exists|mid: Self| #[trigger] Self::rel_hk(*old(self), mid) //@ [C12,C07,C04,C15]
                 && final(self).deques.probation@ == (if mid.cache@.contains_key(kid(key)) { mid.deques.probation@.remove(pos_of_key(mid.deques.probation@, kid(key))) } else { mid.deques.probation@ }), //@
     {
         self.evict_expired_if_needed();
@@ -1785,7 +1785,7 @@ where
             final(self).inv_struct(), //@ [C08,C11,C12]
             final(self).inv_ts(), //@ [C05,C06]
             final(self).inv_count(), //@ [C10]
-            final(self).inv_weight(), //@ [C10,C03,C04]
+            final(self).inv_weight(), //@ [C10,C03,C04,C12]
             final(self).frequency_sketch == old(self).frequency_sketch, //@ [C14]
             final(self).weigher == old(self).weigher, final(self).frequency_sketch_enabled == old(self).frequency_sketch_enabled, //@
             final(self).cache@ == Map::<KeyId, ValueEntry<K, V>>::empty(), //@ [C07,C01]
@@ -1849,7 +1849,7 @@ where
             final(self).inv_struct(), //@ [C08,C11,C12]
             final(self).inv_ts(), //@ [C05,C06]
             final(self).inv_count(), //@ [C10]
-            final(self).inv_weight(), //@ [C10,C03,C04]
+            final(self).inv_weight(), //@ [C10,C03,C04,C12]
             final(self).frequency_sketch == old(self).frequency_sketch, final(self).frequency_sketch_enabled == old(self).frequency_sketch_enabled, //@ [C14]
             final(self).weigher == old(self).weigher, //@
             final(self).cache@.dom() == old(self).cache@.dom(), //@ [C01,C03,C07]
@@ -2196,7 +2196,7 @@ where
             final(self).inv_struct(), //@ [C08,C11,C12]
             final(self).inv_ts(), //@ [C05,C06]
             final(self).inv_count(), //@ [C10]
-            final(self).inv_weight(), //@ [C10,C03,C04]
+            final(self).inv_weight(), //@ [C10,C03,C04,C12]
             // the candidate, if retained, keeps its value and weight and gets fresh timestamps (C01, C05, C06)
             final(self).cache@.contains_key(kid_rc(key)) ==> { //@ [C01,C05,C06,C10,C03]
                 &&& final(self).cache@[kid_rc(key)].value == old(self).cache@[kid_rc(key)].value //@
@@ -2391,12 +2391,12 @@ where
             final(self).inv_struct(), //@ [C08,C11,C12]
             final(self).inv_ts(), //@ [C05,C06]
             final(self).inv_count(), //@ [C10]
-            final(self).inv_weight(), //@ [C10,C03,C04]
+            final(self).inv_weight(), //@ [C10,C03,C04,C12]
             // C01: the key now maps to the new value or to nothing; every other key is untouched or gone
             final(self).cache@.contains_key(kid(&key)) ==> final(self).cache@[kid(&key)].value == value, //@ [C01]
             forall|k: KeyId| #[trigger] final(self).cache@.contains_key(k) && k != kid(&key) ==> old(self).cache@.contains_key(k) && final(self).cache@[k] == old(self).cache@[k], //@ [C01,C07]
             // the complete effect: the housekeeping prefix, then exactly one of the five cases of the property statements
-            exists|mid: Self| #[trigger] Self::rel_hk(*old(self), mid) //@ [C14]
+            exists|mid: Self| #[trigger] Self::rel_hk(*old(self), mid) //@ [C14,C04,C15]
                 && Self::rel_insert(mid, *final(self), kid(&key), value, wspec(old(self).weigher, kid(&key), value), old(self).sp_ts(), old(self).sp_hash(&key)), //@
             // the same, case by case (for attribution of a failure to the property it breaks)
             exists|mid: Self| #[trigger] Self::rel_hk(*old(self), mid) //@ [C01,C05,C06,C10,C03]
